@@ -107,3 +107,25 @@ Definition randrange (a b : Z) (draws : list Z) : res (Z * list Z) :=
     | [] => Err EDraw
     end
   else Err EValue.
+
+(* ---- indexing lemmas used by loop bridges -------------------------------------------- *)
+Lemma zget_app_mid (done : list Z) c rest : zget (done ++ c :: rest) (Z.of_nat (length done)) = c.
+Proof. unfold zget. rewrite Nat2Z.id. rewrite app_nth2 by lia. rewrite Nat.sub_diag. reflexivity. Qed.
+
+Lemma set_nth_app_mid {A} (done : list A) c rest v : set_nth (length done) (done ++ c :: rest) v = done ++ v :: rest.
+Proof. induction done as [|x done IH]; cbn [length app set_nth]; [reflexivity | now rewrite IH]. Qed.
+
+Lemma zset_app_mid (done : list Z) c rest v : zset (done ++ c :: rest) (Z.of_nat (length done)) v = done ++ v :: rest.
+Proof. unfold zset. rewrite Nat2Z.id. apply set_nth_app_mid. Qed.
+
+Lemma set_nth_length {A} n (l : list A) v : length (set_nth n l v) = length l.
+Proof. revert n; induction l as [|x l IH]; intros [|n]; cbn [set_nth length]; auto. Qed.
+
+Lemma zlen_app {A} (a b : list A) : zlen (a ++ b) = zlen a + zlen b.
+Proof. unfold zlen. rewrite app_length. lia. Qed.
+Lemma zlen_nonneg {A} (a : list A) : 0 <= zlen a.
+Proof. unfold zlen. lia. Qed.
+Lemma zlen_cons {A} (x : A) l : zlen (x :: l) = zlen l + 1.
+Proof. unfold zlen. cbn [length]. lia. Qed.
+Lemma zlen_rev {A} (l : list A) : zlen (rev l) = zlen l.
+Proof. unfold zlen. now rewrite rev_length. Qed.
